@@ -231,6 +231,26 @@ func (e *skEnv) leaves(fn *ssa.Function, v ssa.Value, d int, out *skLeaves) {
 		out.other = true
 	case *ssa.Call:
 		e.callLeaves(fn, x, d, out)
+	case *ssa.Parameter:
+		// a number handed to a helper together with the buffer: it is whatever its callers computed
+		if bt, ok := x.Type().Underlying().(*types.Basic); ok && bt.Info()&types.IsInteger != 0 && fn.Signature.Recv() == nil {
+			idx := -1
+			for i, p := range fn.Params {
+				if p == x {
+					idx = i
+				}
+			}
+			sites := callersOf(e.P, fn)
+			if idx >= 0 && len(sites) > 0 {
+				for _, site := range sites {
+					if idx < len(site.Common().Args) {
+						e.leaves(site.Parent(), site.Common().Args[idx], d+1, out)
+					}
+				}
+				return
+			}
+		}
+		out.other = true
 	default:
 		out.other = true
 	}
@@ -360,6 +380,18 @@ func (e *skEnv) desc(fn *ssa.Function, v ssa.Value, d int) string {
 	case *ssa.Parameter:
 		for i, p := range fn.Params {
 			if p == x {
+				// a number a helper is handed: described as what its callers pass, when they all pass the same
+				if bt, ok := x.Type().Underlying().(*types.Basic); ok && bt.Info()&types.IsInteger != 0 && fn.Signature.Recv() == nil {
+					var ds []string
+					for _, site := range callersOf(e.P, fn) {
+						if i < len(site.Common().Args) {
+							ds = append(ds, e.desc(site.Parent(), site.Common().Args[i], d+1))
+						}
+					}
+					if ds = dedup(ds); len(ds) == 1 {
+						return ds[0]
+					}
+				}
 				return fmt.Sprintf("param%d", i)
 			}
 		}
